@@ -3,6 +3,7 @@
   (The ServerStream / unary transport-stream emission theorems are added in Goat/Props/C04b.lean.)
 -/
 import Goat.Metadata
+import Goat.ReqHeaders
 import Goat.ServerStreamProofs
 namespace Goat.Props.C04
 open Goat Goat.Metadata
@@ -19,6 +20,32 @@ theorem md_roundtrip (md : MD) (h : BinWF md) :
     ∃ md', toMetadata (toKeyValue md) = some md' ∧
       ∀ k', get md' k' = (md.filter (fun p => lower p.1 = k')).flatMap (·.2) :=
   ⟨lowered md, toMetadata_toKeyValue md h, get_lowered md⟩
+
+/-- Request side, with or without a deadline (client.go headersFromContext): the header list the
+    client writes decodes to the caller's metadata, key for key and in per-key order; the only other
+    thing in it is the transport's own grpc-timeout entry. In particular keys of the "grpc-" namespace
+    that the caller attaches (grpc-trace-bin …) are metadata like any other. -/
+theorem request_metadata_survives_deadline (md : MD) (h : BinWF md) (remaining : Option Int) :
+    ∃ md', toMetadata (ReqHeaders.headersFromContext md remaining) = some md' ∧
+      ∀ k', k' ≠ Timeout.timeoutKey →
+        get md' k' = (md.filter (fun p => lower p.1 = k')).flatMap (·.2) := by
+  cases remaining with
+  | none =>
+    refine ⟨lowered md, ?_, fun k' _ => get_lowered md k'⟩
+    simp [ReqHeaders.headersFromContext, toMetadata_toKeyValue md h]
+  | some r =>
+    refine ⟨lowered md ++ [(Timeout.timeoutKey, [Timeout.encodeTimeout r])], ?_, ?_⟩
+    · simp [ReqHeaders.headersFromContext, ReqHeaders.toMetadata_append, toMetadata_toKeyValue md h,
+        ReqHeaders.toMetadata_timeout_entry]
+    · intro k' hk'
+      rw [get_append, get_lowered]
+      have : get [(Timeout.timeoutKey, [Timeout.encodeTimeout r])] k' = [] := by
+        unfold Metadata.get
+        simp [List.filter, Ne.symm hk']
+      rw [this, List.append_nil]
+
+example : ∃ md', toMetadata (ReqHeaders.headersFromContext [([103, 114, 112, 99, 45, 120], [[49]])] (some 5000000)) = some md'
+    ∧ get md' [103, 114, 112, 99, 45, 120] = [[49]] := by decide
 
 /-- With keys that stay distinct after lower-casing (I3: what a caller can meaningfully set), the value
     list of every key arrives unchanged under the lower-cased key, whatever the iteration order. -/
